@@ -340,3 +340,77 @@ SPECS["C05"]["harness"].append({"component": "pkt", "args": [], "quick": 96, "th
 # histories of C12 with IP limiting always on, as a monitor-only run of C16 (its correspondence belongs to C12)
 SPECS["C16"]["harness"].append({"component": "service", "args": ["--focus", "c12ip"], "quick": 96, "thorough": 1200, "correspondence": False})
 SPECS["C16"]["ctor_parity"] = SPECS["C16"].get("ctor_parity", []) + ["service"]
+
+# configuration plumbing (harness component `glue`, Model/Config.v): the parameters the component-level checks take
+# as given must be the ones the application configured - ConfigBuilder setters -> build() -> Discv5::new ->
+# Discv5::start -> the real Service::spawn -> the real Handler::spawn on loopback sockets (the constructors record
+# the Config they are handed); one run per property that depends on a configuration parameter, focused on its fields
+for _p in ("C03", "C04", "C05", "C07", "C08", "C09", "C10", "C11", "C12", "C13", "C14", "C15", "C16", "C17", "C18"):
+    for _f in ("Model/Config.v", "Proofs/Config.v", "Run/ConfigRun.v"):
+        if _f not in SPECS[_p]["coq_files"]:
+            SPECS[_p]["coq_files"] = SPECS[_p]["coq_files"] + [_f]
+    _r = SPECS[_p].get("runner_vo") or []
+    _r = [_r] if isinstance(_r, str) else list(_r)
+    if "Run/ConfigRun.v" not in _r:
+        _r.append("Run/ConfigRun.v")
+    SPECS[_p]["runner_vo"] = _r
+    SPECS[_p]["harness"].append({"component": "glue", "args": ["--focus", _p.lower()], "quick": 48, "thorough": 400})
+
+# handler-level halves of C14, C20 and C11 (the request a handshake carries reaches the application, the
+# application's answer reaches the wire - also in bursts and on a session that still waits for the peer's record;
+# the answers to this node's own requests are solicited whatever the filter holds against their source)
+for _p, _f in (("C14", "c14"), ("C20", "c20"), ("C11", "c11")):
+    for _x in HND_FILES:
+        if _x not in SPECS[_p]["coq_files"]:
+            SPECS[_p]["coq_files"] = SPECS[_p]["coq_files"] + [_x]
+    _r = SPECS[_p].get("runner_vo") or []
+    _r = [_r] if isinstance(_r, str) else list(_r)
+    if "Run/HandlerRun.v" not in _r:
+        _r.append("Run/HandlerRun.v")
+    SPECS[_p]["runner_vo"] = _r
+    SPECS[_p]["harness"].append({"component": "hnd", "args": ["--focus", _f, "--fixes", "all"], "quick": 96, "thorough": 1000})
+    SPECS[_p]["ctor_parity"] = sorted(set(SPECS[_p].get("ctor_parity", []) + ["handler"]))
+
+# routing-table level: key/record binding and record-update policy around pending promotion (kb monitors)
+SPECS["C01"]["harness"].append({"component": "kb", "args": ["--focus", "rec", "--prop", "C01"], "quick": 64, "thorough": 600, "correspondence": False})
+SPECS["C12"]["harness"].append({"component": "kb", "args": ["--focus", "rec", "--prop", "C12"], "quick": 64, "thorough": 600, "correspondence": False})
+SPECS["C19"]["harness"].append({"component": "hnd", "args": ["--focus", "c19dup", "--fixes", "all"], "quick": 96, "thorough": 1000, "correspondence": False})
+SPECS["C06"]["harness"].append({"component": "hnd", "args": ["--focus", "c06", "--fixes", "all"], "quick": 96, "thorough": 1000, "correspondence": False})
+
+# the vote glue in the running service loop (PONG handling, auto-NAT windows, event stream re-subscription), and the
+# FINDNODE serving histories as a monitor-only run of C08 (lookup by distances behind a NODES answer and behind the API)
+SPECS["C17"]["harness"].append({"component": "vote", "args": ["--part", "loop"], "quick": 150, "thorough": 1500})
+SPECS["C08"]["harness"].append({"component": "service", "args": ["--focus", "c14"], "quick": 96, "thorough": 1200, "correspondence": False})
+SPECS["C08"]["ctor_parity"] = SPECS["C08"].get("ctor_parity", []) + ["service"]
+
+# scripted-service histories of C12 as monitor-only runs (who-are-you answers / lookups never hang / every candidate contacted)
+SPECS["C02"]["harness"].append({"component": "service", "args": ["--focus", "c12"], "quick": 96, "thorough": 1200, "correspondence": False})
+SPECS["C02"]["ctor_parity"] = SPECS["C02"].get("ctor_parity", []) + ["service"]
+SPECS["C09"]["harness"].append({"component": "service", "args": ["--focus", "c12"], "quick": 96, "thorough": 1200, "correspondence": False})
+SPECS["C10"]["harness"].append({"component": "service", "args": ["--focus", "c12"], "quick": 96, "thorough": 1200, "correspondence": False})
+for _p in ("C06", "C18"):
+    SPECS[_p]["ctor_parity"] = sorted(set(SPECS[_p].get("ctor_parity", []) + ["handler"]))
+
+# the receive task in front of the handler (RecvHandler::handle_inbound driven through VirtualHandler): monitor-only
+# runs of the receive-path histories, focused on the property whose clause they state
+for _p, _n in (("C05", 24), ("C13", 24), ("C03", 16), ("C04", 16), ("C12", 16), ("C14", 16), ("C02", 16)):
+    SPECS[_p]["harness"].append({"component": "limiter", "args": ["--part", "inb", "--focus", _p.lower()], "quick": _n, "thorough": 10 * _n, "correspondence": False})
+    SPECS[_p]["ctor_parity"] = sorted(set(SPECS[_p].get("ctor_parity", []) + ["handler"]))
+SPECS["C18"]["ctor_parity"] = sorted(set(SPECS["C18"].get("ctor_parity", []) + ["handler"]))
+
+# Coq files the Properties files cite since round 4 (receive path, record lookup, routing-table key binding)
+def _need(p, files):
+    for _f in files:
+        if _f not in SPECS[p]["coq_files"]:
+            SPECS[p]["coq_files"] = SPECS[p]["coq_files"] + [_f]
+for _p in ("C02", "C03", "C04", "C05", "C12", "C13", "C14", "C18"):
+    _need(_p, ["Model/Limiter.v", "Proofs/Limiter.v", "Run/LimiterRun.v"])
+    _r = SPECS[_p].get("runner_vo") or []
+    _r = [_r] if isinstance(_r, str) else list(_r)
+    if "Run/LimiterRun.v" not in _r:
+        _r.append("Run/LimiterRun.v")
+    SPECS[_p]["runner_vo"] = _r
+for _p in ("C01", "C02", "C12"):
+    _need(_p, ["Model/KBucket.v", "Model/Nodes.v", "Model/Admission.v", "Proofs/Admission.v"])
+for _p in ("C01", "C07", "C12"):
+    _need(_p, ["Model/KBucket.v", "Proofs/KBMembers.v", "Proofs/KBucketGap.v"])
